@@ -47,6 +47,7 @@ class SimStream(trio.abc.HalfCloseableStream):
         # opt-in (conn["write_buffer"]): bytes the "kernel" takes off the sender's hands while the client is not reading
         self.capacity = conn.get("write_buffer")
         self.kbuf = bytearray()
+        self._held = bytearray()  # what a send_all() in progress has not yet got rid of (the client is not reading, or reads slowly)
 
     def _now(self):
         return trio.current_time()
@@ -70,6 +71,7 @@ class SimStream(trio.abc.HalfCloseableStream):
                 self._wake_in()
                 raise trio.BrokenResourceError("injected write failure")
             data = bytes(data)
+            taken = 0
             self.bytes_written += len(data)
             self.inflight = len(data)
             try:
@@ -82,17 +84,22 @@ class SimStream(trio.abc.HalfCloseableStream):
                     return
                 if self.paused:
                     self.trace.ev("net", "write_held", n=len(data))
-                while self.paused and not self._closed and not self._broken:
-                    self._out_wake = trio.Event()
-                    await self._out_wake.wait()
+                    self._held = bytearray(data)
+                    while self.paused and self._held and not self._closed and not self._broken:
+                        self._out_wake = trio.Event()
+                        await self._out_wake.wait()
+                    taken = len(data) - len(self._held)
+                    data = bytes(self._held)  # (a slow reader may have taken some, or all, of it: net_take)
                 if self._closed:
                     raise trio.ClosedResourceError("stream closed while sending")
                 if self._broken:
                     raise trio.BrokenResourceError("peer gone while sending")
-                self.out.append((self._now(), data))
-                self.trace.ev("net", "write", n=len(data))
+                if data or not taken:
+                    self.out.append((self._now(), data))
+                    self.trace.ev("net", "write", n=len(data))
             finally:
                 self.inflight = 0
+                self._held = bytearray()
 
     async def wait_send_all_might_not_block(self):
         with self._send_c:
@@ -175,6 +182,24 @@ class SimStream(trio.abc.HalfCloseableStream):
         if not self.paused:
             self.paused = True
             self.trace.ev("client", "pause")
+
+    def net_take(self, n):
+        """A client that reads slowly: while it is 'not reading' it takes n of the bytes held for it - first what the "kernel" buffered,
+        then what the send_all() in progress still holds; that send_all() returns when its last byte has gone."""
+        if not self.paused or self._closed or self._broken:
+            return
+        d = bytes(self.kbuf[:n])
+        del self.kbuf[:len(d)]
+        if len(d) < n and self._held:
+            more = bytes(self._held[:n - len(d)])
+            del self._held[:len(more)]
+            d += more
+            self.inflight = len(self._held)
+        if d:
+            self.trace.ev("client", "take", n=len(d))
+            self.out.append((self._now(), d))
+        if not self._held:
+            self._out_wake.set()
 
     def net_resume(self):
         if self.paused:
